@@ -18,6 +18,9 @@ import os
 import time
 import traceback
 
+_perf_counter = time.perf_counter      # bound early: harnesses may stub the time module
+_now = time.time
+
 import z3
 
 __all__ = [
@@ -535,9 +538,9 @@ class Engine:
 
     # ---- solver access
     def _check(self, *extra):
-        t = time.perf_counter()
+        t = _perf_counter()
         r = self.solver.check(*extra)
-        self.solver_s += time.perf_counter() - t
+        self.solver_s += _perf_counter() - t
         self.queries += 1
         if r == z3.unknown:
             self.unknowns += 1
@@ -704,7 +707,7 @@ class Engine:
             last = tr.pop()
             self.prefix = [list(t) for t in tr] + [[not last[0], False, last[2]]]
             if (max_paths is not None and self.paths >= max_paths) or \
-                    (deadline is not None and time.time() > deadline):
+                    (deadline is not None and _now() > deadline):
                 # hand the open subtrees back: the next prefix itself, and the untaken side of every
                 # earlier decision that still has an alternative
                 nxt = self.prefix
